@@ -142,3 +142,12 @@ META["C19"] = dict(
     level_note="Interleavings of concurrent calls with callbacks are sampled. Hook: mpx.VerifReconnectTimeout (build tag verif, add-only).",
 )
 HOOK_COMMITS.append("384b6fa")
+
+META["C15"] = dict(
+    engine="lang",
+    design_ref="DESIGN.md 3/C15",
+    technique="property-based round trip (print -> parse -> compare) over grammar-directed syntax trees rendered with random trivia, and token-level mutation fuzzing with a token-faithfulness oracle (accepted source tokens == tokens of the canonical printing of the returned tree)",
+    level_text="Exploration: generated syntax trees covering every construct of the grammar (all method shapes, qualified/list types, contextual keywords and unicode identifiers as names) are rendered with random whitespace, comments and optional separators; the parser's own tree, marshalled by encoding/json, must equal the expected tree field by field. Token-level mutants (delete/duplicate/swap/replace/insert from a hostile alphabet including Float/Char/RawString tokens, non-decimal and oversized integers, unterminated literals) must never panic or yield (nil,nil), and every accepted text must re-print to exactly its own significant tokens.",
+    level_note="Hook: verifhook.ParseJSON (build tag verif) = parser.Parse + encoding/json of the tree, no custom dump code.",
+)
+HOOK_COMMITS.append("f09a637")
